@@ -12,7 +12,7 @@ export PYTHONPATH="$wt/src"
 clean=$( (timeout 300 /venv/bin/python "$src/demo.py" >/dev/null 2>&1; echo $?) )
 git apply "$src/patch.diff" || { echo "$sid APPLY-FAILED" >> $log; exit 1; }
 mut=$( (timeout 300 /venv/bin/python "$src/demo.py" >/dev/null 2>&1; echo $?) )
-tests=$(timeout 1500 /venv/bin/python -m pytest -q -p no:cacheprovider -n 5 --deselect tests/mc/test_isotension.py::test_isotension_simulation_with_mask 2>&1 | tail -1)
+tests=$(timeout 1500 /venv/bin/python -m pytest -q -p no:cacheprovider -n ${CONFIRM_N:-5} --deselect tests/mc/test_isotension.py::test_isotension_simulation_with_mask 2>&1 | tail -1)
 ok=no
 if [ "$clean" = "0" ] && [ "$mut" != "0" ] && echo "$tests" | grep -q "passed" && ! echo "$tests" | grep -q "failed"; then ok=yes; fi
 echo "$sid clean_exit=$clean mutant_exit=$mut tests='$tests' confirmed=$ok" >> $log
